@@ -697,11 +697,13 @@ class Bus(ContainerBase, StoreClientMixin): # not a ContainerOperand
             ) -> tp.Iterator[tp.Tuple[tp.Hashable, tp.Any]]:
         '''Generator of index, value pairs, equivalent to Series.items(). Repeated to have a common signature as other axis functions.
         '''
-        yield from zip(self._series._index, self._series.values)
+        # NOTE: items() loads (and, under max_persist, releases) the Frames; the stored values can hold FrameDeferred
+        yield from self.items()
 
     def _axis_element(self,
             ) -> tp.Iterator[tp.Any]:
-        yield from self._series.values
+        for _, frame in self.items():
+            yield frame
 
     #---------------------------------------------------------------------------
     # dictionary-like interface; these will force loadings contained Frame
